@@ -13,6 +13,15 @@ Bounded exhaustive product, executed on the real parser:
                  through os.environ, whitespace-padded, the config option through the environment, and for groups the
                  whole group as one JSON value on argv / in the environment)
 
+Two further blocks on the same machinery:
+  * two settings of one branch (the key and its int-typed sibling; also in a three-level parser `n.m.k`): both orders
+    on the command line, both variables in the environment, and EVERY spelling of the two keys in one mapping - each
+    cut of each key path into dotted / nested segments, both orders, entries merged where the JSON keys coincide -
+    as Python object, config string, --cfg string / file.  Every spelling is compared with the fully nested mapping.
+  * lexical variants: the same JSON value with its numbers in every exponent spelling of a stated grid (shift x mantissa
+    form x e/E x exponent sign) and its strings as \\uXXXX escapes, in a document and as command line / environment
+    text, compared with the plain spelling through the same channel and mode.
+
 Oracle (differential, no hand-written expectation): all observations of one setting - typed parsed namespace, or
 "rejected" - are identical, across channels, spellings and modes.
 
@@ -29,7 +38,8 @@ META = {
     "id": "C05",
     "level": "exploration",
     "engine": "bounded exhaustive product on the real ArgumentParser (mc/checks/c05.py)",
-    "technique": "exhaustive product type x unambiguous JSON value x channel x parser_mode x key position, "
+    "technique": "exhaustive product type x unambiguous JSON value x channel x parser_mode x key position (plus every "
+    "dotted/nested spelling of two settings in one mapping and every exponent / escape spelling of the JSON text), "
     "differential oracle: every channel/spelling/mode gives the identical typed result or rejects",
     "level_text": "Every member of the stated finite product is executed on the unmodified parser, each parse on a "
     "freshly built parser; the oracle is differential (the implementation against itself through another channel), so "
@@ -440,11 +450,16 @@ def values_for(spec, quick):
 # ------------------------------------------------------------------------------------------------------
 # parser shapes and renderings
 
-SHAPES = ["top", "nested", "positional", "dataclass", "classgroup", "optdataclass"]
+SHAPES = ["top", "nested", "positional", "dataclass", "classgroup", "optdataclass", "deep"]
 
 
 def leaf_key(shape):
-    return "k" if shape in ("top", "positional") else "n.k"
+    return "k" if shape in ("top", "positional") else "n.m.k" if shape == "deep" else "n.k"
+
+
+def sibling_key(shape):
+    """The key of the sibling argument `j` (int, default 3) that every parser has next to the setting's key."""
+    return leaf_key(shape)[:-1] + "j"
 
 
 def env_name(key):
@@ -482,6 +497,10 @@ def build_parser(shape, spec, mode):
     elif shape == "nested":
         add_leaf(p, "--n.k", spec)
         p.add_argument("--n.j", type=int, default=3)
+    elif shape == "deep":  # three levels: the branch n.m below the branch n (only used by the two-settings block)
+        add_leaf(p, "--n.m.k", spec)
+        p.add_argument("--n.m.j", type=int, default=3)
+        p.add_argument("--n.i", type=int, default=4)
     elif shape == "positional":
         add_leaf(p, "k", spec)
         p.add_argument("--j", type=int, default=3)
@@ -535,6 +554,185 @@ def nested_doc(key, v):
     return doc
 
 
+# ------------------------------------------------------------------------------------------------------
+# lexical variants: the SAME JSON value written with another valid JSON spelling of its numbers / strings
+#   numbers - JSON number grammar  int [frac] [(e|E) [+|-] digits]: every float of the value is re-spelled in exponent
+#             notation, over  shift (scientific normal form s0, s0-1, s0+1 and exponent 0; thorough also s0-2, s0+2)
+#                           x mantissa form (shortest / with ".0" when integral) x {e, E} x exponent sign (bare, +, -)
+#   strings - every character of every string (values and keys) as a \\uXXXX escape
+
+
+def contains_kind(v, kind):
+    if isinstance(v, list):
+        return any(contains_kind(x, kind) for x in v)
+    if isinstance(v, dict):
+        return any(contains_kind(x, kind) for x in v.values()) or (kind is str and any(k != "" for k in v))
+    if kind is str:
+        return isinstance(v, str) and v != ""
+    return type(v) is kind
+
+
+def _sci_shift(f):
+    """Exponent of the scientific normal form of a finite non-zero float (mantissa in [1, 10))."""
+    from decimal import Decimal
+
+    return Decimal(repr(f)).adjusted()
+
+
+def float_variants(quick):
+    """The variant axis (independent of the value): (relative shift | "zero", mantissa form, e-char, sign style)."""
+    shifts = ["zero", 0, -1, 1] if quick else ["zero", 0, -1, 1, -2, 2]
+    return [(s, m, e, x) for s in shifts for m in ("min", "p0") for e in "eE" for x in ("bare", "plus", "minus")]
+
+
+def spell_float(f, variant):
+    """The JSON number text of float f under a variant, or None when f has no such spelling (".0" needs an integral
+    mantissa; a bare or '+' exponent needs an exponent >= 0, a '-' exponent one <= 0)."""
+    from decimal import Decimal
+
+    if f != f or f in (float("inf"), float("-inf")) or f == 0:
+        return None
+    rel, mform, e, style = variant
+    s = 0 if rel == "zero" else _sci_shift(f) + rel
+    if rel != "zero" and s == 0:
+        return None  # the same spelling as the "zero" variant
+    m = format(Decimal(repr(f)).scaleb(-s), "f")
+    if "." in m:
+        m = m.rstrip("0").rstrip(".")
+    if mform == "p0":
+        if "." in m:
+            return None
+        m += ".0"
+    if style == "minus":
+        if s > 0:
+            return None
+        x = "-%d" % -s
+    else:
+        if s < 0:
+            return None
+        x = ("+" if style == "plus" else "") + "%d" % s
+    return m + e + x
+
+
+def _uesc(s):
+    return '"' + "".join("\\u%04x" % ord(c) for c in s) + '"'
+
+
+def dumps_lex(v, fvariant=None, uesc=False):
+    """json.dumps(v) (same separators, same key order) with floats spelled per `fvariant` and / or strings escaped."""
+    if isinstance(v, float) and fvariant is not None:
+        return spell_float(v, fvariant) or json.dumps(v)
+    if isinstance(v, str):
+        return _uesc(v) if uesc else json.dumps(v)
+    if isinstance(v, list):
+        return "[" + ", ".join(dumps_lex(x, fvariant, uesc) for x in v) + "]"
+    if isinstance(v, dict):
+        return "{" + ", ".join(dumps_lex(k, fvariant, uesc) + ": " + dumps_lex(x, fvariant, uesc) for k, x in v.items()) + "}"
+    return json.dumps(v)
+
+
+def lex_variants(v, quick):
+    """[(variant name, fvariant, uesc)] that change the text of v: number spellings realised by at least one float of
+    v, and the string escape variant when v contains a non-empty string."""
+    out = []
+    if contains_kind(v, float):
+        base = json.dumps(v)
+        seen = {base}
+        for fv in float_variants(quick):
+            t = dumps_lex(v, fv)
+            if t not in seen:
+                seen.add(t)
+                rel = "exp0" if fv[0] == "zero" else "sci%+d" % fv[0]
+                out.append((f"num:{rel}:{fv[1]}:{fv[2]}:{fv[3]}", fv, False))
+    if contains_kind(v, str):
+        out.append(("str:uescape", None, True))
+    return out
+
+
+# ------------------------------------------------------------------------------------------------------
+# spellings of a set of TWO settings in one mapping: every cut of each key path into dotted / nested segments, both
+# orders of the two settings; entries are merged where the JSON keys coincide (a JSON object has each key once)
+
+
+def compositions(path):
+    """All 2**(len-1) ways to write a key path as a chain of mapping keys: ['n','m','k'] -> [['n.m.k'], ['n','m.k'],
+    ['n.m','k'], ['n','m','k']] (a '.' inside a segment = dotted spelling, a segment boundary = nested mapping)."""
+    n = len(path)
+    out = []
+    for mask in range(2 ** (n - 1)):
+        segs, cur = [], [path[0]]
+        for i in range(1, n):
+            if mask >> (i - 1) & 1:
+                segs.append(".".join(cur))
+                cur = [path[i]]
+            else:
+                cur.append(path[i])
+        segs.append(".".join(cur))
+        out.append(segs)
+    return out
+
+
+def _insert(doc, segs, value):
+    cur = doc
+    for seg in segs[:-1]:
+        if not (seg in cur and isinstance(cur[seg], dict)):
+            cur[seg] = {}
+        cur = cur[seg]
+    cur[segs[-1]] = value
+
+
+def spelling_class(p1, segs1, p2, segs2):
+    """Structural class of the document that spells setting 1 (path p1, segments segs1) and then setting 2: how the
+    second entry meets the branch the first one has spelled.  Key-agnostic, by shape only."""
+    common_total = 0
+    while common_total < min(len(p1), len(p2)) and p1[common_total] == p2[common_total]:
+        common_total += 1
+    d = i = 0
+    while i < len(segs1) - 1 and i < len(segs2) - 1 and segs1[i] == segs2[i]:
+        d += segs1[i].count(".") + 1
+        i += 1
+    common = common_total - d  # components of the shared branch still ahead at the level where the entries part
+    dotted1 = any("." in s for s in segs1)
+    dotted2 = any("." in s for s in segs2)
+    if common <= 0:
+        # a proper tree: every branch is spelled exactly once
+        return "nested" if not (dotted1 or dotted2) else "tree-with-dotted-keys"
+    c1, c2 = segs1[i].count(".") + 1, segs2[i].count(".") + 1
+    t1 = "dotted" if c1 > common else "mapping"
+    t2 = "dotted" if c2 > common else "mapping"
+    if (t1, t2) == ("dotted", "dotted"):
+        return "dotted" if len(segs1) == len(segs2) == 1 else "dotted-siblings-in-mapping"
+    if (t1, t2) == ("mapping", "dotted"):
+        # does a key of the first entry straddle the end of the shared branch (m.k inside n, met by n.m.j)?
+        pos = 0
+        for s in segs1[i:]:
+            end = pos + s.count(".") + 1
+            if pos < common < end:
+                return "dotted-key-after-mapping-with-dotted-keys"
+            pos = end
+        return "dotted-key-after-mapping"
+    if (t1, t2) == ("dotted", "mapping"):
+        return "mapping-after-dotted-key"
+    return "mapping-after-mapping"
+
+
+def two_setting_docs(k1, v1, k2, v2):
+    """Every spelling of {k1: v1, k2: v2} as one mapping: [(doc, class, first key)] without duplicates."""
+    out, seen = [], set()
+    for (ka, va), (kb, vb) in (((k1, v1), (k2, v2)), ((k2, v2), (k1, v1))):
+        pa, pb = ka.split("."), kb.split(".")
+        for sa in compositions(pa):
+            for sb in compositions(pb):
+                doc = {}
+                _insert(doc, sa, copy.deepcopy(va))
+                _insert(doc, sb, copy.deepcopy(vb))
+                text = json.dumps(doc)
+                if text not in seen:
+                    seen.add(text)
+                    out.append((doc, spelling_class(pa, sa, pb, sb), ka))
+    return out
+
+
 PAD_KINDS = {"both": (" ", " "), "lead": (" ", ""), "trail": ("", " ")}
 
 # channel = (name, family, form, kind, payload, rank)
@@ -563,8 +761,9 @@ def argv_words(shape, spec, key, v):
     return [f"--{key}={text}"], [f"--{key}", text]
 
 
-def channels(shape, v, level, spec=None):
-    """Every rendering of the setting {leaf_key: v} whose rank is <= level."""
+def channels(shape, v, level, spec=None, lex=None):
+    """Every rendering of the setting {leaf_key: v} whose rank is <= level.  `lex` ("quick" / "thorough") adds the
+    lexical variants of the JSON text (other spellings of its numbers / strings)."""
     key = leaf_key(shape)
     text = text_of(v)
     doc_n = nested_doc(key, v)
@@ -613,6 +812,17 @@ def channels(shape, v, level, spec=None):
             out.append((f"env_pad_{pk}", "env.pad", "text", "env_dict", {env_name(key): a + text + b}, 2 if pk == "both" else 3))
         if eq is not None and sep is not None:
             out.append(("argv_sep_pad_both", "argv.pad", "text", "argv", [f"--{key}", " " + text + " "], 3))
+    if lex and shape != "positional":
+        # the same JSON value under another valid JSON spelling: in a document, and (non-strings travel as JSON text)
+        # as the command line / environment text
+        as_text = not isinstance(v, str) and eq is not None and spec not in ("YesNo", "YesNoArg", "FnDouble", "NargsPlusInt")
+        for name, fv, ue in lex_variants(v, lex == "quick"):
+            fam = "lex-str" if ue else "lex-num"
+            out.append((f"parse_string[{name}]", "cfg." + fam, "typed", "string", dumps_lex(doc_n, fv, ue), 1))
+            if as_text:
+                t = dumps_lex(v, fv, ue)
+                out.append((f"argv_eq[{name}]", "argv." + fam, "text", "argv", [f"--{key}={t}"], 1))
+                out.append((f"env_dict[{name}]", "env." + fam, "text", "env_dict", {env_name(key): t}, 3))
     if shape in ("dataclass", "classgroup", "optdataclass"):
         # the whole group as one JSON value (the group option / its environment variable)
         g = json.dumps({"k": v})
@@ -624,12 +834,76 @@ def channels(shape, v, level, spec=None):
     return [c for c in out if c[5] <= level]
 
 
+GROUP_SHAPES = ("dataclass", "classgroup", "optdataclass")
+
+
+def is_mixed(c):
+    return c[1] is not None and c[1].endswith(".mixed")
+
+
+def multi_channels(shape, spec, v, w, level):
+    """Every rendering of the TWO settings {leaf_key: v, sibling_key: w}: both orders on the command line, both
+    variables in the environment, and - as a Python object, a config string, a --cfg string, a --cfg file - every
+    spelling of the two keys in one mapping (`two_setting_docs`).  Family suffix: none = fully nested, `.dotted` =
+    fully dotted, `.mixed` = any other cut (judged per structural class against the fully nested document)."""
+    kkey, jkey = leaf_key(shape), sibling_key(shape)
+    eq, _ = argv_words(shape, spec, kkey, v)
+    jw = [f"--{jkey}={text_of(w)}"]
+    out = [
+        ("argv_kj", "argv", "text", "argv", eq + jw, 0),
+        ("argv_jk", "argv", "text", "argv", jw + eq, 1),
+    ]
+    envs = {env_name(kkey): text_of(v), env_name(jkey): text_of(w)}
+    if shape != "optdataclass":  # its fields are not arguments of their own: no environment variables
+        out.append(("env_dict", "env", "text", "env_dict", envs, 0))
+        out.append(("env_os", "env", "text", "env_os", envs, 2))
+    for i, (doc, cls, _first) in enumerate(two_setting_docs(kkey, v, jkey, w)):
+        sub = {"nested": "", "dotted": ".dotted"}.get(cls, ".mixed")
+        text = json.dumps(doc)
+        out += [
+            (f"parse_object#{i}", "obj" + sub, "typed", "object", doc, 0),
+            (f"parse_string#{i}", "cfg" + sub, "typed", "string", text, 1 if sub == ".mixed" else 0),
+            (f"cfg_str#{i}", "cfg" + sub, "typed", "argv", ["--cfg=" + text], 3 if sub == ".mixed" else 1),
+            (f"cfg_file#{i}", "cfg" + sub, "typed", "file_text", text, 3),
+        ]
+    if shape in GROUP_SHAPES:
+        g, gk = json.dumps({"k": v, "j": w}), json.dumps({"k": v})
+        out += [
+            ("argv_group", "argv.group", "typed", "argv", [f"--n={g}"], 1),
+            ("argv_group_then_leaf", "argv.group", "typed", "argv", [f"--n={gk}"] + jw, 1),
+            ("argv_leaf_then_group", "argv.group", "typed", "argv", jw + [f"--n={gk}"], 1),
+            ("env_group", "env.group", "typed", "env_dict", {env_name("n"): g}, 0 if shape == "optdataclass" else 2),
+        ]
+    # each setting alone (not judged: the reference that names what a deviating spelling has lost)
+    out.append(("only_k", None, "typed", "object", nested_doc(kkey, v), 0))
+    out.append(("only_j", None, "typed", "object", nested_doc(jkey, w), 0))
+    return [c for c in out if c[5] <= level]
+
+
+def case_channels(case, mode):
+    """The channels of a case under a mode."""
+    level = level_for(case, mode)
+    if "multi" in case:
+        return multi_channels(case["shape"], case["type"], case["value"], case["multi"], level)
+    out = channels(case["shape"], case["value"], level, case["type"], case.get("lex"))
+    if mode == "jsonnet":
+        # 30 ms per evaluation, and the document passes through the jsonnet interpreter before any type sees it: of the
+        # lexical variants only the documents, at one type per position kind (leaf / element / dict value)
+        out = [c for c in out if "lex-" not in c[1] or (c[1].startswith("cfg.") and case["type"] in JSONNET_LEX_TYPES)]
+    elif mode == "omegaconf" and case["type"] not in LEX_TYPES_QUICK:
+        out = [c for c in out if "lex-" not in c[1]]
+    return out
+
+
+JSONNET_LEX_TYPES = ["float", "Any", "str", ["List", "float"], ["Dict", "str", "float"], ["List", "str"], ["Dict", "str", "str"]]
+
+
 def level_for(case, mode):
     """Channel level of a mode: quick - yaml gets ranks <= 2, json / omegaconf one channel per (sub-)family (<= 1),
     jsonnet (30 ms per evaluation) one per coarse family (0); thorough - everything (3), jsonnet <= 1."""
     if case.get("quick"):
-        return {"yaml": 2, "jsonnet": 0}.get(mode, 1)
-    return 1 if mode == "jsonnet" else 3
+        return min({"yaml": 2, "jsonnet": 0}.get(mode, 1), case.get("cap", 3))
+    return 1 if mode == "jsonnet" else 3 if mode == "yaml" else min(3, case.get("cap_nonyaml", 3))
 
 
 COARSE = ["argv", "env", "cfg", "obj"]
@@ -666,6 +940,10 @@ def observe_one(shape, spec, mode, kind, payload):
         o = outcome(p.parse_args, payload)
     elif kind == "argv_file":
         o = outcome(p.parse_args, ["--cfg", DOC_FILE])
+    elif kind == "file_text":
+        with open("m.json", "w") as f:
+            f.write(payload)
+        o = outcome(p.parse_args, ["--cfg", "m.json"])
     elif kind == "string":
         o = outcome(p.parse_string, payload)
     elif kind == "path":
@@ -719,7 +997,7 @@ def observe_case(case):
             f.write(json.dumps(nested_doc(leaf_key(shape), v)))
         for mode in case_modes(case):
             obs[mode] = {}
-            for name, _fam, _form, kind, payload, _rank in channels(shape, v, level_for(case, mode), spec):
+            for name, _fam, _form, kind, payload, _rank in case_channels(case, mode):
                 key, o = observe_one(shape, spec, mode, kind, payload)
                 obs[mode][name] = key
                 stats["parses"] += 1
@@ -735,9 +1013,103 @@ def observe_case(case):
 
 
 def judge(case, obs):
-    """All observations equal?  Otherwise one deviation whose signature names the class of the divergence."""
+    """All observations equal?  Otherwise deviations whose signatures name the class of the divergence."""
+    chan = {m: case_channels(case, m) for m in obs}
+    if "multi" not in case:
+        if not case.get("lex"):
+            return judge_core(case, obs, chan)
+        # lexical variants: every re-spelled text against the plain spelling through the same channel and mode
+        plain = {m: [c for c in chan[m] if "[" not in c[0]] for m in obs}
+        return judge_core(case, obs, plain) + judge_lex(case, obs, chan)
+    # two settings: (1) command line, environment, fully nested and fully dotted documents among each other, as for
+    # one setting; (2) every other spelling of the mapping against the fully nested one, per structural class
+    plain = {m: [c for c in chan[m] if c[1] is not None and not is_mixed(c)] for m in obs}
+    return judge_core(case, obs, plain) + judge_mixed(case, obs, chan)
+
+
+def lex_class(v, name):
+    """Class of a lexical variant by the shape of the re-spelled text (not by value): for numbers the mantissa form(s),
+    the exponent letter and the exponent sign style; for strings the escape kind."""
+    import re
+
+    kind, *rest = name.split(":")
+    if kind == "str":
+        return "str:" + rest[0]
+    fv = next(f for n, f, _ in lex_variants(v, False) if n == name)
+    forms = set()
+    for num in re.findall(r"-?[0-9.]+[eE][-+]?[0-9]+", dumps_lex(_floats_only(v), fv)):
+        mant = re.split("[eE]", num)[0]
+        forms.add("int" if "." not in mant else "int.0" if mant.endswith(".0") else "frac")
+    return "num:%s-mantissa:%s:%s-exponent" % ("+".join(sorted(forms)), fv[2], fv[3])
+
+
+def _floats_only(v):
+    """The floats of a value, flat (strings / keys cannot be mistaken for numbers by the class regex)."""
+    if isinstance(v, list):
+        return [y for x in v for y in _floats_only(x)]
+    if isinstance(v, dict):
+        return [y for x in v.values() for y in _floats_only(x)]
+    return [v] if isinstance(v, float) else []
+
+
+def judge_lex(case, obs, chan):
+    v = case["value"]
+    found = {}
+    for m in obs:
+        for c in chan[m]:
+            if "[" not in c[0]:
+                continue
+            base, name = c[0][: c[0].index("[")], c[0][c[0].index("[") + 1 : -1]
+            o, r = obs[m][c[0]], obs[m][base]
+            if o != r:
+                found.setdefault(lex_class(v, name), []).append(
+                    {"mode": m, "channel": base, "family": c[1].split(".")[0], "text": c[4] if isinstance(c[4], str) else list(c[4].values())[0] if isinstance(c[4], dict) else c[4][0],
+                     "got": _short(o), "plain_spelling_gives": _short(r)}
+                )
+    return [
+        {
+            "signature": "lexical-variant:%s:%s" % (cls, "+".join(f for f in COARSE if any(r["family"] == f for r in rows))),
+            "detail": json.dumps({"type": type_name(case["type"]), "value": v, "deviating": rows[:4], "n": len(rows)}, default=repr)[:3000],
+        }
+        for cls, rows in sorted(found.items())
+    ]
+
+
+def judge_mixed(case, obs, chan):
+    shape, v, w = case["shape"], case["value"], case["multi"]
+    kkey = leaf_key(shape)
+    docs = two_setting_docs(kkey, v, sibling_key(shape), w)
+    found = {}
+    for m in obs:
+        ref = {}
+        for c in chan[m]:
+            if c[1] in ("obj", "cfg"):
+                ref.setdefault(c[3], obs[m][c[0]])  # the fully nested document through the same entry point
+        for c in chan[m]:
+            if not is_mixed(c):
+                continue
+            doc, cls, first = docs[int(c[0].split("#")[1])]
+            o, r = obs[m][c[0]], ref.get(c[3], ref["object"])
+            if o == r:
+                continue
+            earlier, later = ("only_k", "only_j") if first == kkey else ("only_j", "only_k")
+            if o == obs[m][later]:  # the outcome of the later setting alone (also when that is a rejection)
+                effect = "earlier-setting-lost"
+            elif o == obs[m][earlier]:
+                effect = "later-setting-lost"
+            else:
+                effect = "rejected" if o[0] != "ok" else "other-value"
+            found.setdefault(f"mixed-spelling:{cls}:{effect}", []).append(
+                {"mode": m, "channel": c[0], "document": json.dumps(doc), "got": _short(o), "fully_nested_gives": _short(r)}
+            )
+    return [
+        {"signature": sig, "detail": json.dumps({"type": type_name(case["type"]), "deviating": rows[:4], "n": len(rows)}, default=repr)[:3000]}
+        for sig, rows in sorted(found.items())
+    ]
+
+
+def judge_core(case, obs, chan):
     shape, spec, v = case["shape"], case["type"], case["value"]
-    chan = {m: channels(shape, v, level_for(case, m), spec) for m in obs}
     flat = [obs[m][c[0]] for m in obs for c in chan[m]]
     distinct = []
     for key in flat:
@@ -858,10 +1230,36 @@ def work(case):
     devs = judge(case, obs)
     flat = [key for m in obs for key in obs[m].values()]
     n_ok = sum(1 for k in flat if k[0] == "ok")
-    chan_acc = sorted({name for m in obs for name, k in obs[m].items() if k[0] == "ok"})
-    chan_rej = sorted({name for m in obs for name, k in obs[m].items() if k[0] != "ok"})
+    chan_acc = sorted({_chan_label(name) for m in obs for name, k in obs[m].items() if k[0] == "ok"})
+    chan_rej = sorted({_chan_label(name) for m in obs for name, k in obs[m].items() if k[0] != "ok"})
     effect = any(k[0] == "ok" and _has_effect(case, k) for k in flat)
+    extra = {"multi": "multi" in case, "mixed_obs": 0, "both_effect": False, "lex_obs": 0, "lex_acc": 0, "lex_names": [],
+             "spelling_classes": []}
+    if "multi" in case:
+        docs = two_setting_docs(leaf_key(case["shape"]), case["value"], sibling_key(case["shape"]), case["multi"])
+        classes = set()
+        for m in obs:
+            for name in obs[m]:
+                if "#" in name:
+                    cls = docs[int(name.split("#")[1])][1]
+                    classes.add(cls)
+                    extra["mixed_obs"] += cls not in ("nested", "dotted")
+            ref = obs[m].get("parse_object#%d" % next(i for i, d in enumerate(docs) if d[1] == "nested"))
+            # losing either setting is observable: the two together differ from each one alone
+            if ref and ref[0] == "ok" and ref != obs[m]["only_k"] and ref != obs[m]["only_j"]:
+                extra["both_effect"] = True
+        extra["spelling_classes"] = sorted(classes)
+    else:
+        names = set()
+        for m in obs:
+            for name, k in obs[m].items():
+                if "[" in name:
+                    extra["lex_obs"] += 1
+                    extra["lex_acc"] += k[0] == "ok"
+                    names.add(name[name.index("[") + 1 : -1])
+        extra["lex_names"] = sorted(names)
     return {
+        **extra,
         "case": case,
         "devs": devs,
         "parses": stats["parses"],
@@ -876,6 +1274,15 @@ def work(case):
         "modes": sorted(obs),
         "effect": effect,
     }
+
+
+def _chan_label(name):
+    """Channel name without the index of the document spelling / the name of the lexical variant."""
+    if "#" in name:
+        return name.split("#")[0] + "#spelling"
+    if "[" in name:
+        return name[: name.index("[")] + "[" + name[name.index("[") + 1 :].split(":")[0] + "]"
+    return name
 
 
 def _has_effect(case, key):
@@ -931,18 +1338,88 @@ def plan_blocks(quick):
     ]
 
 
+# --- lexical block: the cases of these (shape, type) pairs also run the lexical variants of their JSON text
+LEX_TYPES_QUICK = [
+    # positions that take numbers: plain, restricted (own reader), Decimal (reads the text), Any, a rejecting control,
+    # Optional / Union members, list elements, dict values
+    "float", "PositiveFloat", "Decimal", "Any", "int",
+    ["Optional", "float"], ["Union", "int", "float"], ["List", "float"], ["Dict", "str", "float"],
+    # positions that take strings: open, closed, path, members, elements, dict keys and values
+    "str", "E", "pathlib.Path", ["Optional", "str"], ["Union", "int", "str"], ["List", "str"], ["Dict", "str", "str"],
+    ["Dict", "str", "int"],
+]  # fmt: skip
+LEX_EXTRA_FLOATS = [-0.5, 1e3]  # floats of the full alphabet that the quick alphabet lacks: a sign, an exponent >= 1
+
+
+def plan_lex(quick):
+    if quick:
+        return [("nested", LEX_TYPES_QUICK, ["yaml", "json"])]
+    # thorough: additionally every type with a number-taking leaf (restricted floats, Decimal, Any; Optional / List /
+    # Dict / Tuple[x, ...] / Set of float), the full value alphabet and two more exponent shifts
+    floaty = {"float", "PositiveFloat", "NonNegativeFloat", "ClosedUnitInterval", "OpenUnitInterval", "Decimal", "Any"}
+    more = [t for t in g1_types() + g2_types() if t not in LEX_TYPES_QUICK
+            and ((isinstance(t, str) and t in floaty) or (isinstance(t, list) and t[0] not in ("Tuple", "Union") and t[-1] == "float"))]
+    return [("nested", LEX_TYPES_QUICK + more, MODES), ("top", LEX_TYPES_QUICK, ["yaml"])]
+
+
+# --- two-settings block: the key `k` of the case's type and its sibling `j` (int) are BOTH set
+MULTI_SHAPES = ["nested", "deep", "dataclass", "classgroup", "optdataclass"]
+MULTI_TYPES = ["int", "str", "Any", ["Optional", "int"], ["List", "int"], ["Dict", "str", "int"]]
+MULTI_VALUES = [None, 1, 1.5, "a", "", [1], ["a"], {}, {"a": 1}]
+MULTI_VALUES_MORE = [True, "1", "a: b", [], {"a": "b"}, {"a": None}]  # thorough
+
+
+def plan_multi(quick):
+    """[(shape, types, modes, values of the sibling j)]; [1] at the int-typed j must be rejected through every spelling."""
+    if quick:
+        return [(sh, MULTI_TYPES, ["yaml", "json"] if sh == "nested" else ["yaml"], [5]) for sh in MULTI_SHAPES]
+    return [
+        ("nested", MULTI_TYPES, ["yaml", "json", "omegaconf"], [5, [1]]),
+        ("deep", MULTI_TYPES, ["yaml"], [5, [1]]),
+    ] + [(sh, MULTI_TYPES, ["yaml", "json"], [5]) for sh in GROUP_SHAPES]
+
+
 def case_space(ctx):
     quick = ctx.quick
     merged = {}
     plan = plan_blocks(quick)
+
+    binary_only = [t for t in g2_types() if t[0] in ("Tuple", "Union") and t not in JSONNET_TYPES_QUICK] if quick else []
+
+    def add(shape, spec, v, modes, **extra):
+        k = json.dumps([shape, spec, v, extra.get("multi", "single")])
+        c = merged.setdefault(k, {"shape": shape, "type": spec, "value": v, "modes": []})
+        c["modes"] = [m for m in MODES if m in c["modes"] or m in modes]
+        if quick:
+            c["quick"] = True
+        return c
+
     for shape, types, modes in plan:
         for spec in types:
             for v in values_for(spec, quick):
-                k = json.dumps([shape, spec, v])
-                c = merged.setdefault(k, {"shape": shape, "type": spec, "value": v, "modes": []})
-                c["modes"] = [m for m in MODES if m in c["modes"] or m in modes]
-                if quick:
-                    c["quick"] = True
+                c = add(shape, spec, v, modes)
+                if quick and (shape == "top" or spec in binary_only) and not (isinstance(spec, str) and spec in SPECIAL):
+                    # quick: the top-level key and the two-argument types that run under yaml only get one channel per
+                    # (sub-)family; every channel runs at `nested` for all other types.  Not for the argument
+                    # declarations (few cases; the signature of a known deviation there names the deeper channels)
+                    c["cap"] = 1
+                if not quick and shape == "top":
+                    c["cap_nonyaml"] = 1  # thorough: the top-level key runs the deeper channel ranks under yaml only
+    for shape, types, modes in plan_lex(quick):
+        for spec in types:
+            vals = values_for(spec, quick)
+            vals += [v for v in LEX_EXTRA_FLOATS if in_space(v, spec) and not any(type(v) is type(x) and json.dumps(v) == json.dumps(x) for x in vals)]
+            for v in vals:
+                add(shape, spec, v, modes)["lex"] = "quick" if quick else "thorough"
+    for shape, types, modes, ws in plan_multi(quick):
+        for spec in types:
+            for v in MULTI_VALUES if quick else MULTI_VALUES + MULTI_VALUES_MORE:
+                if in_space(v, spec):
+                    for w in ws:
+                        c = add(shape, spec, v, modes, multi=w)
+                        c["multi"] = w
+                        if not quick:
+                            c["cap_nonyaml"] = 1  # thorough: --cfg string / file of every mixed spelling under yaml only
     return list(merged.values()), plan
 
 
@@ -957,8 +1434,18 @@ def explore(ctx):
     types_accepting = set()
     some_acc = some_rej = 0
     chan_runs, escape_types = {}, {}
+    n_multi = mixed_obs = both_effect = lex_cases = lex_obs = lex_acc = 0
+    lex_names, spelling_classes = set(), set()
     for r in ctx.pmap(work, cases):
         n += 1
+        n_multi += r["multi"]
+        mixed_obs += r["mixed_obs"]
+        both_effect += r["both_effect"]
+        lex_cases += bool(r["lex_obs"])
+        lex_obs += r["lex_obs"]
+        lex_acc += r["lex_acc"]
+        lex_names.update(r["lex_names"])
+        spelling_classes.update(r["spelling_classes"])
         parses += r["parses"]
         escapes += r["escapes"]
         for et, k in r["escape_types"].items():
@@ -972,7 +1459,7 @@ def explore(ctx):
         chan_rej.update(r["chan_rej"])
         modes_seen.update(r["modes"])
         if r["effect"]:
-            nontrivial.add(json.dumps([r["case"]["shape"], r["case"]["type"], r["case"]["value"]]))
+            nontrivial.add(json.dumps([r["case"]["shape"], r["case"]["type"], r["case"]["value"], r["case"].get("multi", "single")]))
         if r["accepted"]:
             types_accepting.add(json.dumps([r["case"]["shape"], r["case"]["type"]]))
         some_acc += bool(r["accepted"])
@@ -983,7 +1470,11 @@ def explore(ctx):
     for c in (cases[0], cases[len(cases) // 2], cases[-1]):
         ctx.sample(c)
     mid = cases[len(cases) // 3]
-    ctx.sample({"renderings_of": mid, "channels": [[c[0], c[3], c[4]] for c in channels(mid["shape"], mid["value"], 3)]})
+    ctx.sample({"renderings_of": mid, "channels": [[c[0], c[3], c[4]] for c in case_channels(mid, "yaml")]})
+    first_multi = next(c for c in cases if "multi" in c and c["shape"] == "deep")
+    ctx.sample({"renderings_of": first_multi, "channels": [[c[0], c[1], c[4]] for c in case_channels(first_multi, "yaml")]})
+    first_lex = next(c for c in cases if c.get("lex") and contains_kind(c["value"], float))
+    ctx.sample({"renderings_of": first_lex, "channels": [[c[0], c[1], c[4]] for c in case_channels(first_lex, "yaml") if "[" in c[0]]})
     all_types = {json.dumps([shape, spec]) for shape, types, _ in plan for spec in types}
     ctx.count("cases", n)
     ctx.count("parses", parses)
@@ -993,6 +1484,12 @@ def explore(ctx):
     ctx.count("cases_rejected_by_every_channel", all_rej)
     ctx.count("cases_with_mixed_outcomes", mixed)
     ctx.count("rejections_surfacing_as_other_exception_(C03_subject)", escapes)
+    ctx.count("two_settings_cases", n_multi)
+    ctx.count("two_settings_cases_where_losing_either_setting_is_observable", both_effect)
+    ctx.count("observations_of_mixed_spellings", mixed_obs)
+    ctx.count("cases_with_lexical_variants", lex_cases)
+    ctx.count("observations_of_lexical_variants", lex_obs)
+    ctx.count("observations_of_lexical_variants_accepted", lex_acc)
     ctx.cover(
         evaluations=n,
         states=n,
@@ -1002,7 +1499,11 @@ def explore(ctx):
         rule="one case = (parser shape, type hint, JSON value) with the value textually unambiguous at the type "
         "(rule U, see in_space); it is rendered through every channel under every parser_mode, each parse on a fresh "
         "parser. distinct_nontrivial = distinct cases in which at least one channel accepts the setting with a parsed "
-        "value other than None, i.e. the setting has an observable effect that the other channels must reproduce.",
+        "value other than None, i.e. the setting has an observable effect that the other channels must reproduce. "
+        "Two further blocks: (a) two settings in one branch (the key and its sibling), rendered in both orders on the "
+        "command line, in the environment and through EVERY cut of the two key paths into dotted / nested segments in "
+        "one mapping; (b) lexical variants: the same JSON value with its numbers in every exponent spelling of the "
+        "stated variant grid and its strings as \\uXXXX escapes, in documents and as command line / environment text.",
         exhaustive=True,
         caps_hit=[],
         bounds={
@@ -1012,7 +1513,16 @@ def explore(ctx):
             "values_nonstring": len(QUICK_NONSTRING if ctx.quick else NONSTRING_VALUES),
             "values_string": len(STRING_VALUES),
             "channels_per_case_and_mode": "5-24 by shape, value kind and channel rank (see samples, level_for)",
+            "two_settings_blocks": [
+                {"shape": sh, "types": len(t), "values_k": len(MULTI_VALUES if ctx.quick else MULTI_VALUES + MULTI_VALUES_MORE), "values_j": ws, "modes": ms,
+                 "spellings_of_the_mapping": len(two_setting_docs(leaf_key(sh), 1, sibling_key(sh), 5))}
+                for sh, t, ms, ws in plan_multi(ctx.quick)
+            ],
+            "lexical_blocks": [{"shape": sh, "types": len(t), "modes": ms} for sh, t, ms in plan_lex(ctx.quick)],
+            "lexical_number_variants": len(float_variants(ctx.quick)),
         },
+        spelling_classes=sorted(spelling_classes),
+        lexical_variants_seen=sorted(lex_names),
         rejections_by_other_exception=dict(sorted(escape_types.items())),
         channels_accepting=sorted(chan_acc),
         channels_rejecting=sorted(chan_rej),
@@ -1030,3 +1540,8 @@ def explore(ctx):
     missing = sorted(all_types - types_accepting)
     ctx.require(not missing, f"every (shape, type) has a setting that some channel accepts (missing: {missing[:5]})")
     ctx.require(len(nontrivial) >= 500, "at least 500 distinct settings with an observable effect")
+    ctx.require(n_multi >= 100 and both_effect >= 50 and mixed_obs >= 2000,
+                "two-settings block: >= 100 cases, >= 50 in which losing either setting is observable, >= 2000 mixed-spelling parses")
+    ctx.require(len(spelling_classes) == 8, f"all eight structural classes of a two-key mapping occur ({sorted(spelling_classes)})")
+    ctx.require(lex_cases >= 100 and lex_obs >= 2000 and lex_acc >= 500 and len(lex_names) >= 30,
+                "lexical block: >= 100 cases, >= 2000 parses of a re-spelled text, >= 500 of them accepted, >= 30 distinct variants")
